@@ -917,9 +917,22 @@ fn ex_compare(
     o: &Opts,
     ownership: bool,
 ) -> Option<String> {
+    // After a restore all members of a hardlink group share one inode whose content is that of the
+    // first member: a member is only within the premise of the statement if every member is
+    // (a stale first member with unchanged size and mtime is outside it, and so is what links to it).
+    let mut group_judged: BTreeMap<(u64, u64), bool> = BTreeMap::new();
+    for (k, me) in m {
+        if me.links > 1 && matches!(me.kind, FlatKind::File(_)) {
+            let j = content_judged(me, pre.get(k), o.verify_existing);
+            let e = group_judged.entry((me.device, me.inode)).or_insert(true);
+            *e &= j;
+        }
+    }
     for (k, me) in m {
         let p = show_path(k);
         let was = pre.get(k);
+        let group_ok = !(me.links > 1 && matches!(me.kind, FlatKind::File(_)))
+            || group_judged.get(&(me.device, me.inode)).copied().unwrap_or(true);
         let was_txt = match was {
             None => "absent before".to_string(),
             Some(w) => format!("a {} before", kind_name(&w.kind)),
@@ -938,7 +951,7 @@ fn ex_compare(
                 }
             ));
         }
-        if content_judged(me, was, o.verify_existing) {
+        if content_judged(me, was, o.verify_existing) && group_ok {
             match (&me.kind, &f.kind) {
                 (FlatKind::File(want), FsKind::File(have)) if want[..] != have[..] => {
                     let pos = have.iter().zip(want.iter()).position(|(a, b)| a != b);
